@@ -210,7 +210,7 @@ def judge_reply(name, f, g, spec, probs, api):
 def history(cid, seed, nthreads, nreq, switch, inject):
   import malt
   from malt.impl import api
-  from malt.core import converter
+  from malt.core import converter, ag_ctx
   rng = random.Random(seed)
   salt = rng.randint(1, 9)
   m, pool = build_pool('p', salt)
@@ -249,7 +249,7 @@ def history(cid, seed, nthreads, nreq, switch, inject):
         name, f = r.choice(pool)
         spec = r.choice(opts_used)
         rec, fs = options_of(spec)
-        kind = r.choice(['to_graph', 'to_graph', 'convert', 'converted_call'])
+        kind = r.choice(['to_graph', 'to_graph', 'convert', 'converted_call', 'converted_call_disabled'])
         try:
           if kind == 'to_graph':
             g = malt.to_graph(f, recursive=rec, experimental_optional_features=fs)
@@ -261,10 +261,25 @@ def history(cid, seed, nthreads, nreq, switch, inject):
                 mine.append('%s via convert wrapper opts %s: wrapper(%d)=%r, f(%d)=%r' % (name, spec, x, w(x), x, f(x)))
           else:
             o = converter.ConversionOptions(recursive=rec, user_requested=True, optional_features=fs)
-            x = r.choice(PROBES)
-            got = api.converted_call(f, (x,), None, options=o)
+            x = r.choice([p_ for p_ in PROBES if p_ > 0])
+            before = OPS.count()
+            if kind == 'converted_call_disabled':
+              # a request made while conversion is disabled runs the function as it is, and leaves no trace that
+              # changes how later requests are served
+              with ag_ctx.ControlStatusCtx(status=ag_ctx.Status.DISABLED):
+                got = api.converted_call(f, (x,), None, options=o)
+            else:
+              got = api.converted_call(f, (x,), None, options=o)
+            fired = OPS.count() - before
             if got != f(x):
-              mine.append('%s via converted_call opts %s: %r, f(%d)=%r' % (name, spec, got, x, f(x)))
+              mine.append('%s via %s opts %s: %r, f(%d)=%r' % (name, kind, spec, got, x, f(x)))
+            elif kind == 'converted_call' and fired == 0:
+              mine.append('%s via converted_call opts %s: the function ran unconverted (no control-flow operator was '
+                          'invoked), a fresh conversion runs its loop through the operators' % (name, spec))
+            elif kind == 'converted_call_disabled' and fired:
+              mine.append('%s via converted_call in a DISABLED context: converted code ran' % name)
+            with lock:
+              counters['converted_call_decisions_judged'] += 1
         except Exception as e:  # pylint:disable=broad-except
           import traceback
           ctx = e.__context__ or e
@@ -327,7 +342,7 @@ def history(cid, seed, nthreads, nreq, switch, inject):
 
     if os.environ.get('VERIF_C10_DIAG'):
       type(tr_)._cached_factory = cf
-    with TransformCounter() as tc, stream.FallbackCatcher() as fbc:
+    with TransformCounter() as tc, stream.FallbackCatcher() as fbc, OPS:
       inj = YieldInjector(random.Random(seed + 'inj'), 0.25) if inject else None
       if inj:
         inj.__enter__()
@@ -383,6 +398,44 @@ def history(cid, seed, nthreads, nreq, switch, inject):
       pass
     diff.unload(m)
   return probs, counters, order, opts_used
+
+
+class OpCounter(object):
+  """Per-thread count of control-flow operator invocations (wrappers around the real ag__ operators)."""
+
+  def __init__(self):
+    self.tl = threading.local()
+    self.saved = {}
+
+  def count(self):
+    return getattr(self.tl, 'n', 0)
+
+  def __enter__(self):
+    self.ag = api_module()._TRANSPILER.get_extra_locals()['ag__']
+    for name in ('if_stmt', 'for_stmt', 'while_stmt'):
+      real = getattr(self.ag, name)
+      self.saved[name] = real
+
+      def mk(real):
+        def op(*a, **k):
+          self.tl.n = getattr(self.tl, 'n', 0) + 1
+          return real(*a, **k)
+        return op
+      setattr(self.ag, name, mk(real))
+    return self
+
+  def __exit__(self, *a):
+    for k, v in self.saved.items():
+      setattr(self.ag, k, v)
+    self.saved = {}
+
+
+def api_module():
+  from malt.impl import api as _api
+  return _api
+
+
+OPS = OpCounter()
 
 
 def judge(cid, seed, nthreads, nreq, switch, inject):
